@@ -8,4 +8,11 @@ import Bw.Props.C14
 #print axioms Bw.Props.C14.enable_keeps_exactly
 #print axioms Bw.Props.C14.ite_regex
 #print axioms Bw.Props.C14.validator_code
+#print axioms Bw.Props.C14.affects_code
+#print axioms Bw.Props.C14.results_code
+#print axioms Bw.Props.C14.resultDiags_append
+#print axioms Bw.Props.C14.resultErrors_append
+#print axioms Bw.Props.C14.diags_without
+#print axioms Bw.Props.C14.errors_without
+#print axioms Bw.Props.C14.disable_removes_exactly_diags
 #print axioms Bw.Props.C14.detector_table
